@@ -62,8 +62,8 @@ func (c *sortSliceChecker) VisitExpr(expr ast.Expr) {
 		return
 	}
 	ret, ok := lessFunc.Body.List[0].(*ast.ReturnStmt)
-	if !ok {
-		return
+	if !ok || len(ret.Results) != 1 {
+		return // Can be a bare return with a named result
 	}
 	cmp := astcast.ToBinaryExpr(astutil.Unparen(ret.Results[0]))
 	if !typep.SideEffectFree(c.ctx.TypesInfo, cmp) {
